@@ -92,12 +92,21 @@ for n in XE.__all__:
         from decimal import Decimal
         ODDV = [float('nan'), float('inf'), -float('inf'), 10 ** 30, -10 ** 30, True, b'x', [], {}, (1,), 1 + 2j, Fraction(1, 3), Decimal('1.5'), '', ' ', 'x' * 300, 0, -1, 1e-300, object]
         for v in ODDV:
+            ev = None
             try:
-                c(v); st = 'ok'
+                ev = c(v); st = 'ok'
             except Exception as ex:
                 st = type(ex).__name__
             if st not in ('ok', 'AttributeError', 'TypeError', 'ValueError') and not st.startswith(DOC):
                 odd['value %r' % (v if not isinstance(v, type) else 'a class',)] = st
+            if ev is not None:
+                # an odd value that was ACCEPTED has to be serialisable (or refused with a documented error) too
+                try:
+                    ev.to_string(); st = 'ok'
+                except Exception as ex:
+                    st = type(ex).__name__
+                if st not in ('ok', 'TypeError', 'ValueError') and not st.startswith(DOC) and st != rec.get('to_string'):       # (what the class's plain to_string() raises is recorded above)
+                    odd['to_string after value %r' % (v if not isinstance(v, type) else 'a class',)] = st
         try:
             e0 = c(xsd_check=False)
             names = [a.name for a in c.TYPE.get_xsd_attributes()][:4] if c.TYPE.get_xsd_tree().is_complex_type else []
@@ -113,6 +122,13 @@ for n in XE.__all__:
                     st = type(ex).__name__
                 if st not in ('ok', 'AttributeError', 'TypeError', 'ValueError') and not st.startswith(DOC):
                     odd['attribute %s=%r' % (an, v if not isinstance(v, type) else 'a class')] = st
+                if st == 'ok':
+                    try:
+                        e0.to_string(); st = 'ok'
+                    except Exception as ex:
+                        st = type(ex).__name__
+                    if st not in ('ok', 'TypeError', 'ValueError') and not st.startswith(DOC) and st != rec.get('to_string_unchecked'):
+                        odd['to_string after attribute %s=%r' % (an, v if not isinstance(v, type) else 'a class')] = st
         # misuse of remove(): the same child twice, an element that was never attached, a child of another element.
         # (an AttributeError is documented for unknown dot names only: here it is an internal error)
         try:
